@@ -145,6 +145,114 @@ fn handover_perf(rng: &mut Rng, map: &Beatmap, mode: GameMode, spec: &SetSpec) -
     Ok(got.len() as u64)
 }
 
+/// Ping-pong: a small pool of *persistent* threads; the calculator visits them in turn (one to three steps per visit)
+/// and so returns again and again to a thread that stepped it before - per-thread state left behind by an earlier
+/// visit (thread-locals, lazily initialised caches) must not influence a later one.
+#[cfg(feature = "sync")]
+fn handover_pingpong(rng: &mut Rng, map: &Beatmap, mode: GameMode, spec: &SetSpec, small: bool) -> Result<(u64, u64), String> {
+    use rosu_pp::{GradualDifficulty, GradualPerformance};
+    use std::sync::mpsc;
+    enum Job {
+        Diff(GradualDifficulty, usize),
+        Perf(GradualPerformance, Vec<(usize, rosu_pp::any::ScoreState)>),
+    }
+    enum Done {
+        Diff(GradualDifficulty, Vec<String>),
+        Perf(GradualPerformance, Vec<String>),
+    }
+    let d = spec.without_passed().to_difficulty(mode);
+    let Ok(reference) = GradualDifficulty::new_with_mode(d.clone(), map, mode) else { return Ok((0, 0)) };
+    let seq: Vec<String> = reference.map(|v| dump(&v)).collect();
+    let n_threads = 2 + rng.usize_below(2);
+    let mut visits = 0u64;
+    let mut steps = 0u64;
+    let res = std::thread::scope(|sc| -> Result<(), String> {
+        let mut txs = Vec::new();
+        let (back_tx, back_rx) = mpsc::channel::<Done>();
+        for _ in 0..n_threads {
+            let (tx, rx) = mpsc::channel::<Job>();
+            let back = back_tx.clone();
+            sc.spawn(move || {
+                while let Ok(job) = rx.recv() {
+                    let done = match job {
+                        Job::Diff(mut g, k) => {
+                            let mut out = Vec::new();
+                            for _ in 0..k {
+                                match g.next() {
+                                    Some(v) => out.push(dump(&v)),
+                                    None => break,
+                                }
+                            }
+                            Done::Diff(g, out)
+                        }
+                        Job::Perf(mut g, sched) => {
+                            let out = sched.into_iter().map(|(k, st)| dump(&g.nth(st, k))).collect();
+                            Done::Perf(g, out)
+                        }
+                    };
+                    if back.send(done).is_err() {
+                        break;
+                    }
+                }
+            });
+            txs.push(tx);
+        }
+        // difficulty: visit the threads round-robin or at random until exhausted
+        let mut g = GradualDifficulty::new_with_mode(d.clone(), map, mode).map_err(|e| format!("{e:?}"))?;
+        let mut out: Vec<String> = Vec::new();
+        let round_robin = rng.chance(0.5);
+        let max_visits = if small { 12 } else { 150 };
+        let mut order = Vec::new();
+        for v in 0..max_visits {
+            let ti = if round_robin { v % n_threads } else { rng.usize_below(n_threads) };
+            let k = 1 + rng.usize_below(3);
+            order.push((ti, k));
+            txs[ti].send(Job::Diff(g, k)).map_err(|_| "worker gone (panicked)".to_string())?;
+            let Ok(Done::Diff(g2, o)) = back_rx.recv() else { return Err("worker gone (panicked)".into()) };
+            g = g2;
+            visits += 1;
+            steps += o.len() as u64;
+            let short = o.len() < k;
+            out.extend(o);
+            if short {
+                break;
+            }
+        }
+        out.extend(g.map(|v| dump(&v)));
+        if out != seq {
+            let first = out.iter().zip(seq.iter()).position(|(a, b)| a != b).unwrap_or(out.len().min(seq.len()));
+            order.truncate(24);
+            return Err(format!(
+                "gradual difficulty visiting {n_threads} persistent threads (thread, steps) {order:?}..: {} values, single thread {}; first difference at #{first}",
+                out.len(),
+                seq.len()
+            ));
+        }
+        // performance: same pool
+        let n_obj = map.hit_objects.len() as u32;
+        let sched: Vec<(usize, rosu_pp::any::ScoreState)> =
+            (0..if small { 4 } else { 10 }).map(|_| (rng.usize_below(3), sets::gen_state(rng, n_obj + 1))).collect();
+        let Ok(mut reference) = GradualPerformance::new_with_mode(d.clone(), map, mode) else { return Ok(()) };
+        let want: Vec<String> = sched.iter().map(|(k, st)| dump(&reference.nth(st.clone(), *k))).collect();
+        let mut gp = GradualPerformance::new_with_mode(d.clone(), map, mode).map_err(|e| format!("{e:?}"))?;
+        let mut got = Vec::new();
+        for (i, item) in sched.into_iter().enumerate() {
+            txs[i % n_threads].send(Job::Perf(gp, vec![item])).map_err(|_| "worker gone (panicked)".to_string())?;
+            let Ok(Done::Perf(g2, o)) = back_rx.recv() else { return Err("worker gone (panicked)".into()) };
+            gp = g2;
+            visits += 1;
+            got.extend(o);
+        }
+        if got != want {
+            let first = got.iter().zip(want.iter()).position(|(a, b)| a != b).unwrap_or(0);
+            return Err(format!("gradual performance visiting {n_threads} persistent threads round-robin differs from the single-thread run at step {first}"));
+        }
+        drop(txs);
+        Ok(())
+    });
+    res.map(|()| (visits, steps))
+}
+
 #[allow(clippy::too_many_lines)]
 pub fn case(ctx: &mut Ctx, idx: u64) {
     let mut rng = Rng::for_case(ctx.seed, "C20", idx);
@@ -352,6 +460,16 @@ pub fn case(ctx: &mut Ctx, idx: u64) {
                 }
                 Ok(Err(msg)) => ctx.violation(&format!("C20/handover/{}", mode_name(mode)), &format!("{msg} | settings=[{}]", spec.describe()), Some(&texts[mi])),
                 Err(p) => ctx.violation(&format!("C20/handover-panic/{}/{}", mode_name(mode), p.sig()), &format!("{} at {}", p.msg, p.loc), Some(&texts[mi])),
+            }
+            let mut r4 = rng.fork();
+            match guard(|| handover_pingpong(&mut r4, map, mode, &spec, small)) {
+                Ok(Ok((visits, steps))) => {
+                    ctx.evals(visits);
+                    ctx.count_n("pingpong_visits", visits);
+                    ctx.count_n("pingpong_steps", steps);
+                }
+                Ok(Err(msg)) => ctx.violation(&format!("C20/handover-pingpong/{}", mode_name(mode)), &format!("{msg} | settings=[{}]", spec.describe()), Some(&texts[mi])),
+                Err(p) => ctx.violation(&format!("C20/handover-pingpong-panic/{}/{}", mode_name(mode), p.sig()), &format!("{} at {}", p.msg, p.loc), Some(&texts[mi])),
             }
             let mut r3 = rng.fork();
             match guard(|| handover_perf(&mut r3, map, mode, &spec)) {
